@@ -3,7 +3,7 @@ import itertools, bisect
 import kdf
 
 W = 1 << 64
-THEOREMS = []   # filled in below once Props/C10.lean exists
+THEOREMS = ["Kdf.Props.C10." + t for t in ("search_eq_den", "set_ok", "set_wf", "set_den", "set_nomem", "copy_eq", "copy_fail", "history", "set_status")]
 PTS = [0, 1, 0x1000, (1 << 63) - 1, 1 << 63, W - 2, W - 1]
 METHS = [-1, 0, 3]
 
